@@ -18,9 +18,9 @@ META = {
 }
 
 
-def k_sort(mode: int, d0: bool, d1: bool, d2: bool) -> str:
+def k_sort(mode: int, d0: bool, d1: bool, d2: bool, p1: int, p2: int) -> str:
     """
-    pre: 0 <= mode < 3
+    pre: 0 <= mode < 3 and 0 <= p1 < 2 and 0 <= p2 < 3
     post: _ == ''
     """
     rt.begin()
@@ -31,7 +31,9 @@ def k_sort(mode: int, d0: bool, d1: bool, d2: bool) -> str:
     s = [Sort.ByDate, Sort.ByPath, Sort.DoNot][mode]
     dates = [datetime.datetime(2020, 1, 3) if d0 else None, datetime.datetime(2020, 1, 1) if d1 else None,
              datetime.datetime(2020, 1, 2) if d2 else None]
-    files = [TrashedFile('/a/%d' % i, dates[i], 'i%d' % i, 'f%d' % i) for i in range(3)]
+    # entries may share their original path (the same file trashed several times)
+    paths = ['/a/0', ['/a/0', '/a/1'][p1], ['/a/0', '/a/1', '/a/2'][p2]]
+    files = [TrashedFile(paths[i], dates[i], 'i%d' % i, 'f%d' % i) for i in range(3)]
     try:
         out = list(sort_files(s, files))
     except Exception as e:
@@ -44,7 +46,7 @@ def k_sort(mode: int, d0: bool, d1: bool, d2: bool) -> str:
 
 MAL = ['none', 'non-trashinfo-file', 'empty-info', 'truncated', 'binary', 'non-utf8', 'no-path', 'no-date', 'invalid-date',
        'info-without-payload', 'payload-without-info', 'subdir-in-info', 'info-is-dir', 'no-header', 'crlf', 'dangling-info-link',
-       'unreadable-dir-entry']
+       'unreadable-dir-entry', 'no-date-same-path', 'invalid-date-same-path']
 ORDER = ['insertion', 'reverse']
 TDS = ['/v/.Trash-1000', '/h/.local/share/Trash', '/v/.Trash/1000']
 CMDS = ['list', 'restore-date', 'restore-path', 'restore-none', 'rm', 'empty-days', 'empty', 'rm-abs']
@@ -87,6 +89,11 @@ def mal_nodes(mk, td):
                 W.f(f + 'm', 'M', 0o644, 4001)]
     if k == 'dangling-info-link':
         return [W.l(i + 'm.trashinfo', '/nowhere', 4000), W.f(f + 'm', 'M', 0o644, 4001)]
+    if k in ('no-date-same-path', 'invalid-date-same-path'):
+        base_rel = 'h/w' if td.startswith('/h') else 'w'
+        pv = ('/' + base_rel + '/aa') if td.startswith('/h') else (base_rel + '/aa')
+        extra = '' if k.startswith('no-date') else 'DeletionDate=tomorrow\n'
+        return [W.f(i + 'm.trashinfo', '[Trash Info]\nPath=%s\n%s' % (pv, extra), 0o600, 4000), W.f(f + 'm', 'M', 0o644, 4001)]
     if k == 'unreadable-dir-entry':
         return [W.l(i + 'loop.trashinfo', 'loop.trashinfo', 4000)]
     raise ValueError(k)
@@ -139,7 +146,9 @@ def run_one(mk, order, tdi, cmd, with_mal):
 
 
 def restrict_lines(text):
-    return sorted(ln for ln in text.split('\n') if ln and not any(mk in ln + '\n' for mk in MAL_MARKS) and 'What file to restore' not in ln)
+    # well-formed entries are always dated: an undated line can only be about the malformed neighbour
+    return sorted(ln for ln in text.split('\n') if ln and not any(mk in ln + '\n' for mk in MAL_MARKS)
+                  and 'What file to restore' not in ln and not ln.startswith('????-??-??'))
 
 
 def good_state(snap, td, base):
@@ -166,7 +175,7 @@ def _case(mk, order, tdi, cmd):
         if c.startswith('restore'):
             # listing indexes shift if the neighbour is (legitimately) offered: compare the set of offered good paths
             l0 = sorted((d, p) for (_, d, p) in K.restore_listing(r0['out']))
-            l1 = sorted((d, p) for (_, d, p) in K.restore_listing(r1['out']) if not p.rstrip('\r').endswith('/m'))
+            l1 = sorted((d, p) for (_, d, p) in K.restore_listing(r1['out']) if not p.rstrip('\r').endswith('/m') and d != 'None')
             if scen.sub(got[2], base + '/zz') is None:
                 return rt.fail('C19:well-formed-entry-not-restored:' + label, 'stderr %r' % (r1['err'][-300:],))
             if l0 != l1:
@@ -181,17 +190,17 @@ def _case(mk, order, tdi, cmd):
 def w_main(mk: int, order: int, tdi: int, cmd: int) -> str:
     """
     pre: PARTITION is None or cmd == PARTITION
-    pre: 0 <= mk < 17 and 0 <= order < 2 and 0 <= tdi < 3 and 0 <= cmd < 8
+    pre: 0 <= mk < 19 and 0 <= order < 2 and 0 <= tdi < 3 and 0 <= cmd < 8
     post: _ == ''
     """
-    return _case(rt.sel(mk, 17), rt.sel(order, 2), rt.sel(tdi, 3), rt.sel(cmd, 8))
+    return _case(rt.sel(mk, 19), rt.sel(order, 2), rt.sel(tdi, 3), rt.sel(cmd, 8))
 
 
 def obligations(tier):
     return [
         CH('K_sort_with_undated_entries', MOD, 'k_sort', timeout=120, engine='K', regime='traced',
-           encodes=['trashcli.restore.sort_method.sort_files', 'sorter_for'], bounds='3 entries, symbolic presence of each date, 3 sort modes'),
+           encodes=['trashcli.restore.sort_method.sort_files', 'sorter_for'], bounds='3 entries, symbolic presence of each date, symbolic sharing of original paths, 3 sort modes'),
         CH('W_neighbour_x_order_x_dir_x_cmd', MOD, 'w_main', timeout=900, partitions=list(range(8)), engine='W', regime='selector',
            encodes=K.LIST_FUNCS + K.RESTORE_FUNCS + K.RM_FUNCS + K.EMPTY_FUNCS, stubs=K.STUBS,
-           bounds='17 neighbours x 2 directory orders x 3 trash dirs x 8 command/argument combinations'),
+           bounds='19 neighbours x 2 directory orders x 3 trash dirs x 8 command/argument combinations'),
     ]
